@@ -5,6 +5,7 @@ package quic_test
 // amplification limit is checked on the wire by the independent observer in every case.
 
 import (
+	"strings"
 	"context"
 	"fmt"
 	"net"
@@ -59,6 +60,15 @@ func TestVerifC14Tokens(t *testing.T) {
 	add("retrytoken-replayed-after-lifetime", false, 0)
 	add("retrytoken-replayed-other-ip", false, 0)
 	add("random-bytes", false, 0)
+	// a server that does not enforce Retry (VerifySourceAddress nil) still decides from the token whether the
+	// address counts as verified (ClientInfo.AddrVerified, and with it the 3x limit)
+	add("noretry:newtoken-same-address", true, 0)
+	add("noretry:newtoken-other-ip", false, 0)
+	add("noretry:newtoken-after-expiry", false, 0)
+	add("noretry:retrytoken-fresh", true, 0)
+	add("noretry:retrytoken-replayed-after-lifetime", false, 0)
+	add("noretry:retrytoken-replayed-other-ip", false, 0)
+	add("noretry:random-bytes", false, 0)
 	nmut := l.Pick(12, 120)
 	for i := 0; i < nmut; i++ {
 		add("newtoken-bitflip", false, i)
@@ -167,7 +177,49 @@ func runC14Token(l *evlog.Log, c *evlog.Case, cs *c14TokCase) {
 		return tr
 	}
 	tok := append([]byte(nil), newTok...)
-	switch cs.Variant {
+	variant := cs.Variant
+	noRetry := strings.HasPrefix(variant, "noretry:")
+	var verifiedMu sync.Mutex
+	var verified []bool
+	if noRetry {
+		variant = strings.TrimPrefix(variant, "noretry:")
+		// the same server (same token key) comes back without Retry enforcement
+		w.Listener.Close()
+		w.ServerTr.Close()
+		w.ServerPC.Close()
+		w.ServerPC = simnet.NewBlockingSimConn(quicworld.ServerAddr, w.Router)
+		w.ServerTr = &quic.Transport{Conn: w.ServerPC, MaxTokenAge: maxAge, TokenGeneratorKey: &keyA}
+		sconf := w.Opt.ServerConf.Clone()
+		sconf.GetConfigForClient = func(info *quic.ClientInfo) (*quic.Config, error) {
+			verifiedMu.Lock()
+			verified = append(verified, info.AddrVerified)
+			verifiedMu.Unlock()
+			return nil, nil
+		}
+		ln, err := w.ServerTr.Listen(w.ServerTLSConf, sconf)
+		if err != nil {
+			viol(w, "harness", "re-listen: %v", err)
+			return
+		}
+		w.Listener = ln
+		scancel()
+		sctx, scancel = context.WithCancel(context.Background())
+		swg.Add(1)
+		go func() {
+			defer swg.Done()
+			for {
+				sc, err := w.Accept(sctx)
+				if err != nil {
+					return
+				}
+				swg.Add(1)
+				go func() { defer swg.Done(); <-sc.Context().Done() }()
+			}
+		}()
+	}
+	switch variant {
+	case "retrytoken-fresh":
+		tok = append([]byte(nil), retryTok...)
 	case "newtoken-same-address":
 	case "newtoken-same-ip-other-port":
 		clientTr = mk(quicworld.ClientAddr.IP, 9555)
@@ -253,6 +305,32 @@ func runC14Token(l *evlog.Log, c *evlog.Case, cs *c14TokCase) {
 	w.Wire.Unlock()
 	if !presented {
 		viol(w, "harness|token-not-presented", "the client's first flight did not carry the variant token")
+		return
+	}
+	if noRetry {
+		verifiedMu.Lock()
+		v := append([]bool(nil), verified...)
+		verifiedMu.Unlock()
+		switch {
+		case len(v) == 0 && !cs.Valid:
+			l.Count("noretry_invalid_token_refused", 1) // e.g. INVALID_TOKEN for an expired Retry token: not taken as proof
+		case len(v) == 0:
+			// (a Retry token presented outside its handshake makes the server echo the token's original
+			// destination connection ID, which the client rejects: the dial may fail, the decision is still made)
+			viol(w, "harness|noretry-no-decision-observed", "dial: %v, GetConfigForClient calls: %d", derr, len(v))
+		case cs.Valid && !v[0]:
+			viol(w, "valid-token-not-honoured|"+cs.Variant, "a server without Retry enforcement reports AddrVerified=false for a token that proves the address")
+		case !cs.Valid && v[0]:
+			viol(w, "invalid-token-accepted-as-proof-of-address|"+cs.Variant, "a server without Retry enforcement reports AddrVerified=true")
+		default:
+			l.Count("noretry_addr_verified_decisions_checked", 1)
+		}
+		for _, a := range anoms {
+			if a.Prop == "C14" {
+				viol(w, "wire|"+a.Sig, "%s", a.Detail)
+			}
+		}
+		c.Eval(cs.Name)
 		return
 	}
 	validatedWithoutRetry := derr == nil && retries == 0
